@@ -290,9 +290,12 @@ class TimeDependentLinearPDE(LinearPDE):
             
             # Interpolate solution in space and time to the observation
             # time and space
+            # (spline degrees are reduced for grids with fewer than 4 points)
             solution_obs = scipy.interpolate.RectBivariateSpline(
-                self.grid_sol, self.time_steps, solution)(self.grid_obs,
-                                                          self._time_obs)
+                self.grid_sol, self.time_steps, solution,
+                kx=min(3, len(self.grid_sol)-1),
+                ky=min(3, len(self.time_steps)-1))(self.grid_obs,
+                                                   self._time_obs)
 
         # Apply observation map
         if self.observation_map is not None:
